@@ -142,6 +142,12 @@ func init() {
 	for _, n := range []string{"sync.(*Mutex).Unlock", "sync.(*RWMutex).Unlock", "sync.(*RWMutex).RUnlock"} {
 		reg(n, []string{}, lockOp(false))
 	}
+	noop := func(fr *Frame, in ssa.Instruction, args []*Val, resT types.Type) (*Val, bool) {
+		return &Val{T: "0", Typ: resT}, true
+	}
+	for _, n := range []string{"sync.(*WaitGroup).Add", "sync.(*WaitGroup).Done", "sync.(*WaitGroup).Wait"} {
+		reg(n, []string{}, noop)
+	}
 	// --- sync/atomic ---
 	atomicRMW := func(f func(vc *VC, old Term, a []Term, t types.Type) (newv, res Term)) externHandler {
 		return func(fr *Frame, in ssa.Instruction, args []*Val, resT types.Type) (*Val, bool) {
